@@ -69,6 +69,37 @@ func ruleConv(c *Ctx) {
 		for k, cc := range c.switchCasesByConst(sw) {
 			out[k] = cat(cc.Body)
 		}
+		// kinds answered from a package-level table before the switch: `if t, ok := tbl[rt.Kind()]; ok { return t }`
+		inspectNoLit(fd.Body, func(x ast.Node) bool {
+			is, ok := x.(*ast.IfStmt)
+			if !ok || is.Else != nil || len(is.Body.List) != 1 {
+				return true
+			}
+			as, ok := is.Init.(*ast.AssignStmt)
+			if !ok || len(as.Lhs) != 2 || len(as.Rhs) != 1 {
+				return true
+			}
+			ix, ok := unparen(as.Rhs[0]).(*ast.IndexExpr)
+			if !ok || !strings.HasSuffix(src(ix.Index), ".Kind()") || c.objOf(is.Cond) == nil || c.objOf(is.Cond) != c.objOf(as.Lhs[1]) {
+				return true
+			}
+			r, ok := is.Body.List[0].(*ast.ReturnStmt)
+			if !ok || len(r.Results) != 1 || c.objOf(r.Results[0]) != c.objOf(as.Lhs[0]) {
+				return true
+			}
+			tv, ok := c.objOf(ix.X).(*types.Var)
+			if !ok || tv.Pkg() == nil || tv.Parent() != tv.Pkg().Scope() {
+				return true
+			}
+			for _, e := range c.tableEntries(short(tv.Pkg().Path()), tv.Name()) {
+				if ko := c.objOf(e.key); ko != nil {
+					if _, dup := out[qual(ko)]; !dup {
+						out[qual(ko)] = cat([]ast.Stmt{&ast.ReturnStmt{Results: []ast.Expr{e.val}}})
+					}
+				}
+			}
+			return true
+		})
 		return out, sw
 	}
 	tt, tsw := table(tyOf)
